@@ -449,3 +449,20 @@ class SteqSymmetric:
 
     induction = ("a", "b")
     components = ("_statements", "_iterations", "_alias_index", "_parameters")
+
+
+@lemma(props=["C20"])
+class SteqOfSame:
+    """reflexivity in the form proofs about passes need it: what is identical (or the same number) is structurally equal"""
+
+    def requires(a, b):
+        return pp_tree(a) or pp_val(a)
+
+    def claim(a, b):
+        return implies(same(a, b), steq(a, b))
+
+    def trigger(a, b):
+        return steq(a, b)
+
+    induction = ("a", "b")
+    components = ("_statements", "_iterations", "_alias_index", "_parameters")
